@@ -487,7 +487,7 @@ func boolByte(b bool) byte {
 func init() {
 	sim.Register(&sim.Prop{
 		ID: "C09", Engine: "E-CRASH", Level: "fault_enumeration", Fn: runC09, NewEnv: NewEnv,
-		Runs: map[string]int{"quick": 32, "thorough": 480},
+		Runs: map[string]int{"quick": 32, "thorough": 160},
 		Rule: "per run: a scenario (page size 512/1024/4096/65536, journal mode DELETE/TRUNCATE/PERSIST incl. a second transaction over a persisted journal, cache_size 5 so dirty pages spill before commit, 1-3 transactions of updates/inserts/deletes/rollbacks; one scenario in five starts from a zero-length database whose first recorded transaction creates schema and rows) is executed by real SQLite under strace; the parsed trace must reproduce SQLite's final files byte for byte; then EVERY system-call boundary is a crash point and every write is additionally torn at each 512-byte boundary (first 6 in quick) and 3 drawn byte positions (up to 900 / 8000 images per run in the quick / thorough tier); each distinct (database, journal) pair is read through a fresh sqlittle handle, one in five also through a symbolic link in another directory, and, one in six each, through a long-lived handle that cached the pre-transaction state and through a handle opened before the transaction whose first read comes after the crash; oracle: a copy is opened by real SQLite (own recovery + integrity_check) - sqlittle must fail or return exactly that content, a table that does not exist after SQLite's recovery must not be readable, and sqlittle may not fail when the journal is absent, empty or zero-headered (unless the recovered database is empty); evaluations = distinct crash images; non-trivial run = trace with >2 writes; states = (crash phase, journal harmless?, journal mode)",
 		Real: append([]string{"unix file pager + journal check on real files; crash images are produced from real SQLite's recorded system calls"}, realAll...),
 		Stub: []string{"the dying writer process is represented by its recorded system calls applied to file copies (process death loses no completed write; power loss is out of the property's quantifier)"},
